@@ -38,7 +38,7 @@ impl Kind {
 }
 
 // Helper keys. Mixer keys never collide with local-call displacements (1..8).
-pub const MIXER_KEYS: [u32; 4] = [10, 11, 12, 0xdead_beef];
+pub const MIXER_KEYS: [u32; 6] = [10, 11, 12, 0xdead_beef, 0, 0xffff_ffff];
 pub const KEY_PROBE_R1: u32 = 0x9001;
 pub const KEY_PROBE_SLOT: u32 = 0x9002;
 pub const KEY_PROBE_STACK: u32 = 0x9003;
@@ -81,6 +81,13 @@ pub enum Class {
     /// stores at the bottom of its stack, calls a helper, then loads a packet byte with ldabs/ldind:
     /// the helper call must change neither the stack nor what the packet loads address
     ProbeHelperThenPkt,
+    /// a long straight-line ALU program (more than a page of machine code)
+    LongAlu,
+    /// main -> f -> g, and g fails (out-of-bounds load): the interpreter returns an error from two
+    /// frames deep. Interpreter only (contains a call to a never-registered helper).
+    FailInCallee,
+    /// packet bytes loaded with ldabs inside a local function and after it returned
+    ProbeCallThenPkt,
     /// stores to its stack, then fails (calls a helper id that is never registered): interpreter only
     StackLeakWrite,
     /// returns stack slots it never wrote (0 on a fresh interpreter stack). Contains an unreachable
@@ -109,6 +116,9 @@ impl Class {
             Class::StorePkt => "StorePkt",
             Class::SlotPlain => "SlotPlain",
             Class::ProbeHelperThenPkt => "ProbeHelperThenPkt",
+            Class::LongAlu => "LongAlu",
+            Class::FailInCallee => "FailInCallee",
+            Class::ProbeCallThenPkt => "ProbeCallThenPkt",
             Class::StackLeakWrite => "StackLeakWrite",
             Class::StackLeakRead => "StackLeakRead",
         }
@@ -135,6 +145,9 @@ impl Class {
             Class::StackLeakWrite,
             Class::StackLeakRead,
             Class::ProbeHelperThenPkt,
+            Class::LongAlu,
+            Class::FailInCallee,
+            Class::ProbeCallThenPkt,
         ] {
             if c.name() == s {
                 return Some(c);
@@ -303,12 +316,64 @@ pub fn gen_const(rng: &mut Rng, tag: u8) -> Prog {
 
 /// Straight-line ALU program with optional forward skips; address-free, terminates.
 pub fn gen_alu(rng: &mut Rng, tag: u8) -> Prog {
+    let n = rng.range(2, 14);
+    gen_alu_n(rng, tag, n)
+}
+
+pub fn gen_long_alu(rng: &mut Rng, tag: u8) -> Prog {
+    let n = rng.range(450, 900);
+    let mut p = gen_alu_n(rng, tag, n);
+    p.class = Class::LongAlu;
+    p
+}
+
+/// main: call f; trailer.  f: call g; exit.  g: ldxb r0, [1] (refused); exit
+pub fn gen_fail_in_callee(tag: u8) -> Prog {
+    let mut b = B::new(tag);
+    b.i(MOV64_IMM, 0, 0, 0, 0); // 1
+    b.i(CALL, 0, 1, 0, 5); // 2 -> 2+1+5 = 8 (f)
+    b.i(0x05, 0, 0, 1, 0); // 3: ja +1
+    b.i(CALL, 0, 0, 0, KEY_NEVER as i32); // 4: never executed; keeps both compilers away
+    b.trailer(tag); // 5,6,7
+    assert_eq!(b.len(), 8);
+    b.i(STDW_IMM, 10, 0, -8, 0x7171); // 8   f: uses its frame
+    b.i(CALL, 0, 1, 0, 1); // 9 -> 9+1+1 = 11 (g)
+    b.i(EXIT, 0, 0, 0, 0); // 10
+    b.i(MOV64_IMM, 2, 0, 0, 0); // 11  g
+    b.i(LDXB, 0, 2, 1, 0); // 12: address 1 lies in no region, whatever the heap layout
+    b.i(EXIT, 0, 0, 0, 0); // 13
+    let mut p = mk(b.v, tag, Class::FailInCallee);
+    p.local_call = true;
+    p
+}
+
+/// main: call f; r0 = (r6 << 8 | ldabsb j) ...   f: r6 = ldabsb i; exit      (interpreter and JIT)
+pub fn gen_probe_call_then_pkt(tag: u8, i: usize, j: usize) -> Prog {
+    let mut b = B::new(tag);
+    b.i(MOV64_IMM, 6, 0, 0, 0); // 1
+    b.i(CALL, 0, 1, 0, 7); // 2 -> 2+1+7 = 10
+    b.i(MOV64_REG, 6, 0, 0, 0); // 3: r6 = what f returned
+    b.i(LD_ABS_B, 0, 0, 0, j as i32); // 4
+    b.i(LSH64_IMM, 6, 0, 0, 8); // 5
+    b.i(OR64_REG, 0, 6, 0, 0); // 6
+    b.trailer(tag); // 7,8,9
+    assert_eq!(b.len(), 10);
+    b.i(LD_ABS_B, 0, 0, 0, i as i32); // 10  f
+    b.i(EXIT, 0, 0, 0, 0); // 11
+    let mut p = mk(b.v, tag, Class::ProbeCallThenPkt);
+    p.p0 = i as i64;
+    p.p1 = j as i64;
+    p.min_pkt = i.max(j) + 8;
+    p.local_call = true;
+    p
+}
+
+fn gen_alu_n(rng: &mut Rng, tag: u8, n: u64) -> Prog {
     let mut b = B::new(tag);
     let regs = [0u8, 6, 7];
     for r in regs {
         b.i(MOV64_IMM, r, 0, 0, rng.next_u64() as i32);
     }
-    let n = rng.range(2, 14);
     // units: each is a list of slots; a skip jumps over exactly the next unit
     let mut units: Vec<Vec<[u8; 8]>> = Vec::new();
     for _ in 0..n {
